@@ -147,6 +147,65 @@ pub fn worlds(budget: usize, names: &[&str], max_depth: usize) -> Vec<World> {
     ws
 }
 
+/// Every world obtained from `world` by inserting one symbolic link named `name` at every
+/// position of every directory, with every target kind: each sibling (file or directory), the
+/// parent (`..`), the grandparent (`../..`), the directory itself (`.`) and a missing target.
+pub fn with_link(world: &World, name: &str) -> Vec<World> {
+    fn go(node: &FNode, depth: usize, name: &str, rebuild: &dyn Fn(FNode) -> World, out: &mut Vec<World>) {
+        let FKind::Dir { children, readable } = &node.kind else { return };
+        if children.iter().all(|c| c.name != name) {
+            let mut targets: Vec<String> = children.iter().map(|c| c.name.clone()).collect();
+            targets.push("missing".into());
+            targets.push(".".into());
+            if depth >= 1 {
+                targets.push("..".into());
+            }
+            if depth >= 2 {
+                targets.push("../..".into());
+            }
+            for t in targets {
+                for pos in 0..=children.len() {
+                    let mut ch = children.clone();
+                    ch.insert(pos, FNode::link(name, &t));
+                    out.push(rebuild(FNode { name: node.name.clone(), kind: FKind::Dir { children: ch, readable: *readable } }));
+                }
+            }
+        }
+        for (i, c) in children.iter().enumerate() {
+            let rebuild_child = |newc: FNode| -> World {
+                let mut ch = children.clone();
+                ch[i] = newc;
+                rebuild(FNode { name: node.name.clone(), kind: FKind::Dir { children: ch, readable: *readable } })
+            };
+            go(c, depth + 1, name, &rebuild_child, out);
+        }
+    }
+    let mut out = vec![];
+    go(&world.root, 0, name, &|n| World { root: n }, &mut out);
+    out
+}
+
+/// Every world obtained by making exactly one directory (the root included) unreadable.
+pub fn with_unreadable(world: &World) -> Vec<World> {
+    fn go(node: &FNode, rebuild: &dyn Fn(FNode) -> World, out: &mut Vec<World>) {
+        let FKind::Dir { children, readable } = &node.kind else { return };
+        if *readable {
+            out.push(rebuild(FNode { name: node.name.clone(), kind: FKind::Dir { children: children.clone(), readable: false } }));
+        }
+        for (i, c) in children.iter().enumerate() {
+            let rebuild_child = |newc: FNode| -> World {
+                let mut ch = children.clone();
+                ch[i] = newc;
+                rebuild(FNode { name: node.name.clone(), kind: FKind::Dir { children: ch, readable: *readable } })
+            };
+            go(c, &rebuild_child, out);
+        }
+    }
+    let mut out = vec![];
+    go(&world.root, &|n| World { root: n }, &mut out);
+    out
+}
+
 // ---------------------------------------------------------------------------------------------
 // Construction on disk
 // ---------------------------------------------------------------------------------------------
@@ -181,7 +240,8 @@ pub struct Built {
 
 impl Built {
     pub fn cleanup(&self) {
-        for p in &self.unreadable {
+        // parents are recorded after their children: restore them first
+        for p in self.unreadable.iter().rev() {
             let _ = fs::set_permissions(p, fs::Permissions::from_mode(0o755));
         }
         let _ = fs::remove_dir_all(&self.root);
@@ -259,6 +319,13 @@ impl RItem {
 /// Resolves a path of names (with `..`) from a directory given by its node path from the tree
 /// root. Returns the node path of the target, or None if it does not exist / leaves the tree.
 fn resolve(world: &World, from_dir: &[usize], target: &str) -> Option<Vec<usize>> {
+    resolve_hops(world, from_dir, target, 0)
+}
+
+fn resolve_hops(world: &World, from_dir: &[usize], target: &str, hops: usize) -> Option<Vec<usize>> {
+    if hops > 8 {
+        return None; // ELOOP
+    }
     let mut cur: Vec<usize> = from_dir.to_vec();
     for comp in target.split('/') {
         match comp {
@@ -269,12 +336,46 @@ fn resolve(world: &World, from_dir: &[usize], target: &str) -> Option<Vec<usize>
             name => {
                 let node = node_at(world, &cur)?;
                 let idx = node.children().iter().position(|c| c.name == name)?;
-                cur.push(idx);
-                // links inside link targets are not generated
+                // a link inside the target path is followed in turn
+                if let FKind::Link { target: t2 } = &node.children()[idx].kind {
+                    cur = resolve_hops(world, &cur, t2, hops + 1)?;
+                }
+                else {
+                    cur.push(idx);
+                }
             },
         }
     }
     Some(cur)
+}
+
+/// Does the walked path `rel` (which may pass through followed links) name a symbolic link?
+pub fn names_link(world: &World, rel: &[String]) -> bool {
+    let mut cur: Vec<usize> = vec![];
+    for (i, comp) in rel.iter().enumerate() {
+        let Some(node) = node_at(world, &cur) else { return false };
+        let Some(idx) = node.children().iter().position(|c| &c.name == comp) else { return false };
+        let child = &node.children()[idx];
+        let last = i + 1 == rel.len();
+        match &child.kind {
+            FKind::Link { target } => {
+                if last {
+                    return true;
+                }
+                match resolve(world, &cur, target) {
+                    Some(t) => cur = t,
+                    None => return false,
+                }
+            },
+            _ => {
+                if last {
+                    return false;
+                }
+                cur.push(idx);
+            },
+        }
+    }
+    false
 }
 
 pub fn node_at<'a>(world: &'a World, path: &[usize]) -> Option<&'a FNode> {
